@@ -1,6 +1,6 @@
 (** C03 — each function is run at most once, and exactly once in a clean run. *)
 From FG Require Import Dag Builder Sched DagFacts EdgeFacts RankFacts BuilderFacts TopoFacts AugFacts BuildFacts
-     SchedInv SchedInv2 SafetyFacts CfgFacts StreamInv SI_Queuer SI_Step SI2_Step SI_Stream SafetyInv StreamFacts OutcomeFacts.
+     SchedInv SchedInv2 SafetyFacts CfgFacts StreamInv SI_Queuer SI_Step SI2_Step SI_Stream SafetyInv StreamFacts OutcomeFacts SelfSignal SelfSignalInv.
 From Coq Require Import Permutation.
 
 Theorem C03_at_most_once_call : forall ops G p q rev a mt ctl lim st incl imm er evs,
@@ -13,6 +13,21 @@ Proof.
   eapply trace_starts_nodup. apply (v_trace _ _ Hinv).
 Qed.
 Print Assumptions C03_at_most_once_call.
+
+(** ... also when a user future sends the interrupt signal itself, inside a poll of the call
+    ([SelfSignal.run_sig]; known finding F4 concerns the C08 bound only): still at most once, and
+    still no panic site or fuel exhaustion reachable. *)
+Theorem C03_when_a_user_future_sends_the_signal : forall ops G p q rev a mt ctl lim st incl imm er sg evs,
+  build (builder_run ops) = BOk G p q ->
+  NoDup (starts (trace (fst (run_sig sg (mk_cfg G rev a mt ctl lim st incl imm er) evs)))) /\
+  panic (fst (run_sig sg (mk_cfg G rev a mt ctl lim st incl imm er) evs)) = None.
+Proof.
+  intros ops G p q rev a mt ctl lim st incl imm er sg evs Hb.
+  pose proof (build_ok_intro ops G p q Hb) as Hok.
+  pose proof (inv_run_sig sg _ evs (cfg_ok_mk _ _ _ _ rev a mt ctl lim st incl imm er Hok)) as Hinv.
+  split; [eapply trace_starts_nodup; apply (v_trace _ _ Hinv) | apply (v_nopanic _ _ Hinv)].
+Qed.
+Print Assumptions C03_when_a_user_future_sends_the_signal.
 
 Theorem C03_at_most_once_stream : forall ops G p q rev st intr drain evs,
   build (builder_run ops) = BOk G p q ->
